@@ -156,6 +156,7 @@ class Exec(object):
 
 
 _traced_now = None
+_nexec = 0
 
 
 def execute(h, param, prefix=(), expect=None, jump=False, order="rr"):
@@ -198,7 +199,11 @@ def execute(h, param, prefix=(), expect=None, jump=False, order="rr"):
                 h.name, "".join(traceback.format_exception(type(e), e, e.__traceback__))))
     s.threads = []
     s = None
-    gc.collect()
+    global _nexec
+    _nexec += 1
+    # young generation only: everything the execution allocated is new; the explorer's
+    # (large) stack of pending prefixes is promoted once and not rescanned every time
+    gc.collect(0 if _nexec & 255 else 2)
     return x
 
 
@@ -336,3 +341,46 @@ def _jsonable(p):
         return p
     except TypeError:
         return repr(p)
+
+
+def stuck_threads(x):
+    """Classify the final thread table: returns list of rows that are blocked for ever on a
+    lock or join whose holder can never proceed (cycle, self-edge, or holder idle for ever)."""
+    rows = {r["name"]: r for r in x.table}
+    memo = {}
+
+    def status(name, path):
+        if name in memo:
+            return memo[name]
+        r = rows.get(name)
+        if r is None:
+            return "live"
+        if name in path:
+            return "stuck"      # cycle
+        if r["state"] in ("finished",):
+            res = "gone"
+        elif r["state"] == "runnable":
+            res = "live"
+        elif r["deadline"] is not None and r["deadline"] <= x.h.horizon:
+            res = "live"
+        elif r["on_kind"] in ("lock", "join"):
+            owner = r["on_owner"]
+            if owner is None:
+                res = "live" if r["on_kind"] == "lock" else "idle"
+            else:
+                o = status(owner, path + [name])
+                if r["on_kind"] == "join":
+                    res = "live" if o in ("live", "gone") else "stuck"
+                else:
+                    # a lock owned by a finished thread is never released
+                    res = "live" if o == "live" else "stuck"
+        else:
+            res = "idle"
+        memo[name] = res
+        return res
+
+    out = []
+    for name in rows:
+        if status(name, []) == "stuck":
+            out.append(rows[name])
+    return out
